@@ -3,17 +3,41 @@ CHECK = {
     "level": "model_checking",
     "engine": "E2",
     "technique": "explicit-state BFS over the refinement histories of the real AMRGrid with every invariant evaluated on every "
-                 "transition; bounded-exhaustive position / neighbour / ray / query lattices for the legacy density grids and "
-                 "search structures against index-arithmetic, long double marcher and brute-force oracles",
-    "level_text": "TODO",
-    "level_note": "TODO",
+                 "transition (state = set of refined nodes = sorted leaf keys, fresh real object rebuilt from each history); "
+                 "bounded-exhaustive position / neighbour / ray / query lattices for CartesianDensityGrid, AMRDensityGrid, "
+                 "VoronoiDensityGrid, Octree and PointLocations against index-arithmetic, long double ray marcher and "
+                 "brute-force oracles",
+    "level_text": "AMR state space: every refinement history of the real AMRGrid inside the bound (block layouts 1, 2x1x1, 3x1x1, "
+                  "3x2x1 (+1x1x2, 1x2x3); all 8 children: quick <=5/4/4/3 refinements with leaves to level 3, thorough <=6 "
+                  "refinements to level 3 and <=5 to level 4 for one block, <=5/4 for two and three blocks, <=4 to level 4 for six; "
+                  "pairs of opposite children: 12 refinements / level 4; single chains to level 8; boxes with non-binary block "
+                  "sizes) is enumerated breadth first; on every transition a fresh grid is built from the history and "
+                  "enumeration (first/next key = Morton order of the model, each leaf once), geometry, volume sum, the "
+                  "(2^(d+1)+1)^3-per-block position lattice (get_key, get_key(level), get_cell, unique containment), neighbour "
+                  "pointers for all 8 periodicities (equal to the model's same-or-coarser node, mutual) are checked and a digest "
+                  "of all answers must equal that of the first history reaching the same leaf set and of the grid built with "
+                  "create_cell. The density grids and search structures are sequential numeric code: all positions of a face/"
+                  "centre/1-ulp lattice, all cells x faces x 8 periodicities, all rays of start lattice x 124 integer directions x "
+                  "periodicities x opacity fields x target depths, and all queries of a centre lattice x point sets x radii are "
+                  "evaluated against independent oracles. The refinement histories form a finite state machine whose "
+                  "observable behaviour must depend on the state only, which is what explicit-state search decides.",
+    "level_note": "Nothing is claimed beyond the stated budgets (full-alphabet BFS stops at 6 refinements; 12 refinements only over "
+                  "pairs of opposite children; depth 8 only along single chains). Positions on the upper box faces are outside the "
+                  "half-open box; positions within round-off (8 eps (|anchor|+|side|)) of an interior face may be located in either "
+                  "adjacent cell. Rays exactly in a cell-face plane (AMR) or through a cell edge/vertex (Voronoi) and target depths "
+                  "reached exactly on a wall are ties: either cell/outcome is accepted, conservation and staying inside the box are "
+                  "still required. Ray tolerances k=2: k eps (steps+2)(max|coord|/min|dir_i| + path); Voronoi adds 4e-12 |diagonal| "
+                  "per step for the code's deliberate epsilon displacement. AMRDensityGrid::get_neighbours / "
+                  "integrate_optical_depth and VoronoiDensityGrid::integrate_optical_depth are unimplemented in the code base. "
+                  "Voronoi generator sets are generic (degenerate sets: C15).",
     "quick_deadline": 110,
     "thorough_deadline": 1200,
     "parts": [
-        {"name": "amr", "bin": "c16_amr", "quick_share": 0.4, "thorough_share": 0.5},
-        {"name": "cartesian", "bin": "c16_cartesian", "quick_share": 0.25, "thorough_share": 0.25},
-        {"name": "amrdens", "bin": "c16_amrdens", "quick_share": 0.25, "thorough_share": 0.2},
-        {"name": "search", "bin": "c16_search", "quick_share": 0.1, "thorough_share": 0.05},
+        {"name": "amr", "bin": "c16_amr", "quick_share": 0.36, "thorough_share": 0.42},
+        {"name": "cartesian", "bin": "c16_cartesian", "quick_share": 0.24, "thorough_share": 0.28},
+        {"name": "amrdens", "bin": "c16_amrdens", "quick_share": 0.26, "thorough_share": 0.22},
+        {"name": "voronoi", "bin": "c16_voronoi", "quick_share": 0.08, "thorough_share": 0.06},
+        {"name": "search", "bin": "c16_search", "quick_share": 0.06, "thorough_share": 0.02},
     ],
     "assumptions": [],
 }
